@@ -19,6 +19,14 @@ CLAIMED = {
          "checked against the StatusSpec relation by z3 under the reachability precondition R; the same relation on every "
          "tree reached by stage-1 runs (stop/abort/never-started/de-selected/hook errors) and on re-runs", "DESIGN.md 4/C03",
          "symbolic execution of real code + z3 (enum-symbolic kernels, bounded trees)"),
+ "C12": ("self-composition on the real runner: the same tree is run fault-free and with the k-th hook call raising (k an "
+         "unbounded z3 integer, so every hook call site of the run is an injection point); nested-order against a reference log, "
+         "pairing, containment, --stop, dry-run, selection", "DESIGN.md 4/C12",
+         "symbolic execution of real code + z3 (fault position symbolic, bounded trees)"),
+ "C13": ("exhaustive bounded operation histories on the real Context/fixture code against a stack-of-dicts reference with "
+         "attribute values as unconstrained z3 integers and a raise-Boolean per cleanup; real runs with cleanups registered by "
+         "hooks at every level and by steps (current layer / layer=feature / layer=testrun)", "DESIGN.md 4/C13",
+         "symbolic execution of real code + z3 (bounded histories, symbolic values and fault flags)"),
 }
 NA_REASON = "check not built yet in this round (planned, see DESIGN.md section 4)"
 checks = []
